@@ -124,6 +124,7 @@ Definition upd (s : state) (heap : heap) (remaining : option nat) (generated run
      s_trace := trace; s_graph := graph; s_genparams := genparams; s_topology := topology; s_k := k; s_table := table;
      s_status := status; s_results := results |}.
 
+(* ---- the single assignments (or small groups of them) that the steps below are made of *)
 Definition log (t : tag) (s : state) : state :=
   upd s (s_heap s) (s_remaining s) (s_generated s) (s_runid s) (t :: s_trace s) (s_graph s) (s_genparams s) (s_topology s)
       (s_k s) (s_table s) (s_status s) (s_results s).
@@ -139,9 +140,8 @@ Definition set_heap (h : heap) (s : state) : state :=
 
 (* the empty event stream that Dynamics.setUp installs, with the run's random source *)
 Definition fresh_k (w : W) (i : nat) : st W :=
-  let '(rs, ls, ds) := u_oracle u i in
   {| clock := 0%Q; nextid := 0; queue := []; loci := []; world := w; ids := []; out := [];
-     rands := rs; lns := ls; draws := ds; stuck := false |}.
+     rands := fst (fst (u_oracle u i)); lns := snd (fst (u_oracle u i)); draws := snd (u_oracle u i); stuck := false |}.
 
 (* user code acting on the event stream and on the working network object *)
 Definition act (f : st W * G -> st W * G) (s : state) : state :=
@@ -149,7 +149,7 @@ Definition act (f : st W * G -> st W * G) (s : state) : state :=
   | None => s
   | Some a => match h_get a (s_heap s) with
               | None => s
-              | Some g => let '(k, g') := f (s_k s, g) in set_k k (set_heap (h_set a g' (s_heap s)) s)
+              | Some g => set_k (fst (f (s_k s, g))) (set_heap (h_set a (snd (f (s_k s, g))) (s_heap s)) s)
               end
   end.
 
@@ -158,116 +158,117 @@ Definition prologue (s : state) : state :=
   upd s (s_heap s) (s_remaining s) (s_generated s) (s_runid s) (s_trace s) (s_graph s) (s_genparams s) (s_topology s)
       (s_k s) (s_table s) None false.
 
-(* NetworkExperiment.setUp: self._graph = None; g = gen.set(params).generate(); setNetwork(g);
-   params[TOPOLOGY] = gen.topology().   NetworkGenerator.generate decrements the quota before it
-   calls _generate; FixedNetwork._generate copies the prototype.  Result: the state and whether
-   the step raised. *)
+(* NetworkExperiment.setUp: self._graph = None; gen.set(params) *)
+Definition drop_graph (params : P) (s : state) : state :=
+  upd s (s_heap s) (s_remaining s) (s_generated s) (s_runid s) (TSetUp :: s_trace s) None (Some params) (s_topology s)
+      (s_k s) (s_table s) (s_status s) (s_results s).
+(* NetworkGenerator.generate: self._remaining -= 1 (when limited), before _generate is called *)
+Definition take_quota (s : state) : state :=
+  upd s (s_heap s) (match s_remaining s with Some (S n) => Some n | r => r end) (s_generated s) (s_runid s) (s_trace s)
+      (s_graph s) (s_genparams s) (s_topology s) (s_k s) (s_table s) (s_status s) (s_results s).
+(* FixedNetwork._generate: a copy of the prototype; setNetwork(g); params[TOPOLOGY] = gen.topology() *)
+Definition put_graph (g : G) (s : state) : state :=
+  upd s (snd (h_alloc g (s_heap s))) (s_remaining s) (S (s_generated s)) (s_runid s) (TGenerate true :: s_trace s)
+      (Some (fst (h_alloc g (s_heap s)))) (s_genparams s) true (s_k s) (s_table s) (s_status s) (s_results s).
+(* quota used up: generate() returns None; setNetwork(None); the marker is still written *)
+Definition no_graph (s : state) : state :=
+  upd s (s_heap s) (s_remaining s) (s_generated s) (s_runid s) (TGenerate false :: s_trace s) None (s_genparams s) true
+      (s_k s) (s_table s) (s_status s) (s_results s).
+
+(* NetworkExperiment.setUp.  Result: the state and whether the step raised. *)
 Definition net_setup (params : P) (inject : option fail) (s : state) : state * bool :=
-  let s1 := upd s (s_heap s) (s_remaining s) (s_generated s) (s_runid s) (TSetUp :: s_trace s)
-                None (Some params) (s_topology s) (s_k s) (s_table s) (s_status s) (s_results s) in
-  let go (rem : option nat) :=
-    match inject with
-    | Some FGenerate =>
-        (upd s1 (s_heap s1) rem (s_generated s1) (s_runid s1) (s_trace s1) None (Some params) (s_topology s1)
-             (s_k s1) (s_table s1) (s_status s1) (s_results s1), true)
-    | _ =>
-        match h_get (s_proto s1) (s_heap s1) with
-        | None => (s1, true)                                     (* unreachable: the prototype exists *)
-        | Some g =>
-            let '(a, h) := h_alloc g (s_heap s1) in
-            (upd s1 h rem (S (s_generated s1)) (s_runid s1) (TGenerate true :: s_trace s1) (Some a) (Some params) true
-                 (s_k s1) (s_table s1) (s_status s1) (s_results s1), false)
-        end
-    end in
-  match s_remaining s1 with
-  | None => go None
-  | Some (S n) => go (Some n)
-  | Some O =>                                                    (* quota used up: generate() returns None *)
-      (upd s1 (s_heap s1) (Some O) (s_generated s1) (s_runid s1) (TGenerate false :: s_trace s1) None (Some params) true
-           (s_k s1) (s_table s1) (s_status s1) (s_results s1), false)
+  match s_remaining s with
+  | Some O => (no_graph (drop_graph params s), false)
+  | _ =>
+      match inject with
+      | Some FGenerate => (take_quota (drop_graph params s), true)
+      | _ => match h_get (s_proto s) (s_heap s) with
+             | None => (drop_graph params s, true)                    (* unreachable: the prototype exists *)
+             | Some g => (put_graph g (take_quota (drop_graph params s)), false)
+             end
+      end
   end.
 
-(* Dynamics.setUp after super().setUp(): the six assignments, then reset, build, setUp of the process *)
+(* Dynamics.setUp after super().setUp(): self._loci = dict() ... self._simulationTime = 0.0;
+   the process fields stay as they were until reset() *)
+Definition clear_stream (i : nat) (s : state) : state := set_k (fresh_k (world (s_k s)) i) s.
+(* Process.reset (and the sub-classes'): _runId += 1; event tables and own fields from constants *)
+Definition reset_proc (i : nat) (s : state) : state :=
+  upd s (s_heap s) (s_remaining s) (s_generated s) (S (s_runid s)) (TReset :: s_trace s) (s_graph s) (s_genparams s)
+      (s_topology s) (fresh_k (u_world u) i) None (s_status s) (s_results s).
+(* build: loci with their initial members and the event tables *)
+Definition built (i : nat) (tb : table W) (s : state) : state :=
+  upd s (s_heap s) (s_remaining s) (s_generated s) (s_runid s) (TBuild :: s_trace s) (s_graph s) (s_genparams s) (s_topology s)
+      {| clock := 0%Q; nextid := 0; queue := []; loci := init_loci tb; world := t_world tb; ids := []; out := [];
+         rands := fst (fst (u_oracle u i)); lns := snd (fst (u_oracle u i)); draws := snd (u_oracle u i); stuck := false |}
+      (Some tb) (s_status s) (s_results s).
+(* setUp of the processes: their actions (postings) in order; the working network decorated *)
+Definition proc_setup (i : nat) (a : nat) (g' : G) (tb : table W) (s : state) : state :=
+  upd s (h_set a g' (s_heap s)) (s_remaining s) (s_generated s) (s_runid s) (TProcSetUp :: s_trace s) (s_graph s)
+      (s_genparams s) (s_topology s)
+      (setup_state tb (fst (fst (u_oracle u i))) (snd (fst (u_oracle u i))) (snd (u_oracle u i))) (s_table s) (s_status s) (s_results s).
+
 Definition dyn_setup (i : nat) (params : P) (inject : option fail) (s : state) : state * bool :=
-  (* self._loci = dict() ... self._simulationTime = 0.0: the old world stays until reset() *)
-  let s1 := set_k (fresh_k (world (s_k s)) i) s in
   match inject with
-  | Some FReset => (log TReset s1, true)                         (* reset() raised before resetting *)
+  | Some FReset => (log TReset (clear_stream i s), true)             (* reset() raised before resetting *)
+  | Some FBuild => (act (u_partial u FBuild params) (log TBuild (reset_proc i (clear_stream i s))), true)
   | _ =>
-    (* Process.reset: _runId += 1; the event tables and the sub-class fields from constants *)
-    let s2 := upd s1 (s_heap s1) (s_remaining s1) (s_generated s1) (S (s_runid s1)) (TReset :: s_trace s1) (s_graph s1)
-                  (s_genparams s1) (s_topology s1) (fresh_k (u_world u) i) None (s_status s1) (s_results s1) in
-    match inject with
-    | Some FBuild => (act (u_partial u FBuild params) (log TBuild s2), true)
-    | _ =>
-      match s_graph s2 with
-      | None => (log TBuild s2, true)                            (* no working network: build/setUp of a process that
-                                                                    reads the network raises *)
+      match s_graph s with
+      | None => (log TBuild (reset_proc i (clear_stream i s)), true)  (* no working network: build/setUp of a process
+                                                                        that reads the network raises *)
       | Some a =>
-        match h_get a (s_heap s2) with
-        | None => (log TBuild s2, true)
-        | Some g =>
-          let tb := u_table u params g in
-          let '(rs, ls, ds) := u_oracle u i in
-          (* build: loci with their initial members and the event tables *)
-          let kb := {| clock := 0%Q; nextid := 0; queue := []; loci := init_loci tb; world := t_world tb; ids := []; out := [];
-                       rands := rs; lns := ls; draws := ds; stuck := false |} in
-          let s3 := upd s2 (s_heap s2) (s_remaining s2) (s_generated s2) (s_runid s2) (TBuild :: s_trace s2) (s_graph s2)
-                        (s_genparams s2) (s_topology s2) kb (Some tb) (s_status s2) (s_results s2) in
-          match inject with
-          | Some FProcSetUp => (act (u_partial u FProcSetUp params) (log TProcSetUp s3), true)
-          | _ =>
-            (* setUp of the processes: their actions (postings) in order, the network decorated *)
-            let s4 := upd s3 (h_set a (u_decorate u params g) (s_heap s3)) (s_remaining s3) (s_generated s3) (s_runid s3)
-                          (TProcSetUp :: s_trace s3) (s_graph s3) (s_genparams s3) (s_topology s3)
-                          (setup_state tb rs ls ds) (Some tb) (s_status s3) (s_results s3) in
-            (s4, false)
+          match h_get a (s_heap s) with
+          | None => (log TBuild (reset_proc i (clear_stream i s)), true)
+          | Some g =>
+              let tb := u_table u params g in
+              match inject with
+              | Some FProcSetUp =>
+                  (act (u_partial u FProcSetUp params) (log TProcSetUp (built i tb (reset_proc i (clear_stream i s)))), true)
+              | _ => (proc_setup i a (u_decorate u params g) tb (built i tb (reset_proc i (clear_stream i s))), false)
+              end
           end
-        end
       end
-    end
   end.
 
 (* the whole set-up; [inject] only matters if it names a set-up step *)
 Definition setup (i : nat) (params : P) (inject : option fail) (s : state) : state * bool :=
-  let '(s1, raised) := net_setup params inject (prologue s) in
-  if raised then (s1, true) else dyn_setup i params inject s1.
+  if snd (net_setup params inject (prologue s)) then (fst (net_setup params inject (prologue s)), true)
+  else dyn_setup i params inject (fst (net_setup params inject (prologue s))).
 
 (* Dynamics.tearDown: process.tearDown(); super().tearDown(); finder and queue emptied *)
 Definition empty_queue (k : st W) : st W :=
   {| clock := clock k; nextid := nextid k; queue := []; loci := loci k; world := world k; ids := ids k; out := out k;
      rands := rands k; lns := lns k; draws := draws k; stuck := stuck k |}.
+Definition torn_down (s : state) : state := log TTornDown (set_k (empty_queue (s_k s)) (log TProcTearDown s)).
 Definition teardown (inject : option fail) (s : state) : state * bool :=
   match inject with
   | Some FProcTearDown => (log TProcTearDown s, true)
-  | _ => (log TTornDown (set_k (empty_queue (s_k s)) (log TProcTearDown s)), false)
+  | _ => (torn_down s, false)
+  end.
+
+Definition mark_results (s : state) : state :=
+  upd s (s_heap s) (s_remaining s) (s_generated s) (s_runid s) (TEnded :: TResults :: s_trace s) (s_graph s) (s_genparams s)
+      (s_topology s) (s_k s) (s_table s) (s_status s) true.
+
+(* do() and what follows it, from the state at simulationStarted *)
+Definition after_started (params : P) (o : outcome) (s1 : state) : state * bool :=
+  let s3 := act (u_body u o params) (log TStarted s1) in
+  match o with
+  | FailAt (FEvent _) => (set_status false (torn_down s3), true)     (* do() raised: tear-down is still called *)
+  | FailAt FResults => (set_status false (torn_down (log TResults s3)), true)
+  | FailAt FProcTearDown => (set_status false (log TProcTearDown (mark_results s3)), true)
+  | _ => (set_status true (torn_down (mark_results s3)), false)
   end.
 
 (* one call of run(): the state afterwards, and whether the run failed *)
 Definition run_once (i : nat) (params : P) (o : outcome) (s : state) : state * bool :=
   let inject := match o with Ok => None | FailAt f => Some f end in
-  let '(s1, raised) := setup i params inject s in
-  if raised then (set_status false s1, true)                    (* no tear-down after a failing set-up *)
-  else
-    let s2 := log TStarted s1 in                                (* simulationStarted: the observation point *)
-    let s3 := act (u_body u o params) s2 in
-    match inject with
-    | Some (FEvent _) =>
-        (* do() raised: tear-down is still called, its own exceptions are ignored *)
-        (set_status false (fst (teardown None s3)), true)
-    | Some FResults =>
-        (set_status false (fst (teardown None (log TResults s3))), true)
-    | _ =>
-        let s4 := log TEnded (upd (log TResults s3) (s_heap s3) (s_remaining s3) (s_generated s3) (s_runid s3)
-                                  (TResults :: s_trace s3) (s_graph s3) (s_genparams s3) (s_topology s3) (s_k s3) (s_table s3)
-                                  (s_status s3) true) in
-        let '(s5, raised') := teardown inject s4 in
-        if raised' then (set_status false s5, true) else (set_status true s5, false)
-    end.
+  if snd (setup i params inject s) then (set_status false (fst (setup i params inject s)), true)   (* no tear-down *)
+  else after_started params o (fst (setup i params inject s)).
 
 (* the state at simulationStarted of a run whose set-up succeeds *)
 Definition at_started (i : nat) (params : P) (s : state) : option state :=
-  let '(s1, raised) := setup i params None s in if raised then None else Some s1.
+  if snd (setup i params None s) then None else Some (fst (setup i params None s)).
 
 (* a history: the parameters and the outcome of each run, run number counting from i *)
 Fixpoint run_all (i : nat) (h : list (P * outcome)) (s : state) : state :=
@@ -295,9 +296,9 @@ Definition view_of (s : state) : view :=
    the run's random source alone *)
 Definition F (i : nat) (params : P) (g : G) : view :=
   let tb := u_table u params g in
-  let '(rs, ls, ds) := u_oracle u i in
   {| v_net := Some (u_decorate u params g); v_genparams := Some params; v_topology := true;
-     v_k := setup_state tb rs ls ds; v_table := Some tb; v_status := None; v_results := false |}.
+     v_k := setup_state tb (fst (fst (u_oracle u i))) (snd (fst (u_oracle u i))) (snd (u_oracle u i));
+     v_table := Some tb; v_status := None; v_results := false |}.
 
 End Life.
 
@@ -310,6 +311,9 @@ Arguments u_partial {G W P}. Arguments u_body {G W P}.
 Arguments net_setup {G W P}. Arguments dyn_setup {G W P}. Arguments setup {G W P}. Arguments teardown {G W P}.
 Arguments run_once {G W P}. Arguments run_all {G W P}. Arguments at_started {G W P}. Arguments initial {G W P}.
 Arguments view_of {G W P}. Arguments F {G W P}. Arguments prologue {G W P}. Arguments act {G W P}.
+Arguments drop_graph {G W P}. Arguments take_quota {G W P}. Arguments put_graph {G W P}. Arguments no_graph {G W P}.
+Arguments clear_stream {G W P}. Arguments reset_proc {G W P}. Arguments built {G W P}. Arguments proc_setup {G W P}.
+Arguments torn_down {G W P}. Arguments mark_results {G W P}. Arguments after_started {G W P}. Arguments upd {G W P}.
 Arguments fresh_k {G W P}. Arguments log {G W P}. Arguments set_status {G W P}. Arguments set_k {G W P}. Arguments set_heap {G W P}.
 Arguments v_net {G W P}. Arguments v_genparams {G W P}. Arguments v_topology {G W P}. Arguments v_k {G W P}.
 Arguments v_table {G W P}. Arguments v_status {G W P}. Arguments v_results {G W P}.
